@@ -24,6 +24,14 @@ def run_property(pid, tier):
     try:
         mod = importlib.import_module('props.' + pid.lower())
         mod.run(ctx)
+        if tier == 'thorough' and not os.environ.get('VERIF_EVDIR'):
+            import calibrate
+            cal = calibrate.calibrate(pid, ast_.REPO)
+            ctx.extra['calibration'] = cal
+            print('calibration: %d/%d seeded changes reported, %d/%d benign variants silent, %d skipped (patch no longer applies)' % (
+                cal['seeded_reported'], cal['seeded_applicable'], cal['benign_silent'], cal['benign_applicable'], len(cal['skipped'])))
+            for r in cal['unexpected']:
+                print('CALIBRATION-NOTE: %s expected %s, got %s %s' % (r['case'], r['expect'], r['result'], ','.join(r.get('rules', []))))
         return ctx, report.finish(ctx)
     except ast_.AnalysisBroken as e:
         return ctx, report.finish(ctx, broken=str(e))
